@@ -404,6 +404,36 @@ fn run_text(ctx: &Ctx) {
             }
         }
     }
+    // Character class sweep: the shapers classify a character by their own tables whatever script the run is tagged with
+    // (a Malayalam dot reph in a run tagged deva, a Khmer coeng in a Myanmar run ...). Every code point of every block a
+    // complex-script shaper knows, in five contexts with the script's own first consonant and its halant / second letter, on
+    // the first font of every script, default configuration. The font need not map the character: unmapped characters
+    // become glyph 0 with the character attached, and that is what reaches the syllable machines.
+    {
+        let ranges: [(u32, u32); 12] = [(0x0600, 0x06FF), (0x0700, 0x074F), (0x08A0, 0x08FF), (0x0900, 0x0DFF), (0x0E00, 0x0EFF), (0x1000, 0x109F), (0x1780, 0x17FF), (0x1CD0, 0x1CFF), (0xA8E0, 0xA8FF), (0xA9E0, 0xA9FF), (0xAA60, 0xAA7F), (0x11300, 0x1137F)];
+        let cps: Vec<char> = ranges.iter().flat_map(|&(a, z)| (a..=z).filter_map(char::from_u32)).collect();
+        let mut n_texts = 0usize;
+        for (si, sc) in SCRIPTS.iter().enumerate() {
+            let (b, h) = (sc.alphabet[0], sc.alphabet[2.min(sc.alphabet.len() - 1)]);
+            let mut texts: Vec<String> = Vec::with_capacity(cps.len() * 5);
+            for &c in &cps {
+                texts.push(c.to_string());
+                texts.push([b, c].iter().collect());
+                texts.push([c, b].iter().collect());
+                texts.push([b, h, c].iter().collect());
+                texts.push([b, c, h, b].iter().collect());
+            }
+            n_texts += texts.len();
+            let texts = std::sync::Arc::new(texts);
+            let total = texts.len() as u64;
+            let mut s0 = 0;
+            while s0 < total {
+                jobs.push(Job { script: si, font: 0, alpha: Vec::new(), len: 0, start: s0, end: (s0 + 2000).min(total), cfg_bound: 0, texts: Some(texts.clone()), tag_override: None });
+                s0 += 2000;
+            }
+        }
+        ctx.set("character_class_sweep", json!({"code_points": cps.len(), "contexts": 5, "scripts": SCRIPTS.len(), "strings": n_texts}));
+    }
     // Script tag sweep: every script tag the library knows (old and version 2 Indic tags, both Myanmar tags ...), DFLT and
     // unknown tags, on every script's first font, for all strings <= 2 (thorough 3) over the first eight letters of the
     // alphabet: the choice of shaper depends on the tag alone, the text and the font need not match it.
@@ -433,7 +463,7 @@ fn run_text(ctx: &Ctx) {
             skipped.fetch_add(job.end - job.start, std::sync::atomic::Ordering::Relaxed);
             return;
         }
-        let (e, nt) = if job.texts.is_some() {
+        let (e, nt) = if job.texts.is_some() && job.font >= 1000 {
             run_job(ctx, job, &frac_fonts[job.font - 1000], &frac_cfgs)
         } else {
             run_job(ctx, job, &fonts[job.script][job.font], &cfgsets[job.cfg_bound as usize])
